@@ -141,8 +141,16 @@ def expr_replace(f: Expr, old: sympy.Function, new: Expr) -> Expr:
 
 
 def partition_heaviside(f: Expr) -> tuple[Expr, ...]:
-    if f.has(sympy.Heaviside):
-        return expr_replace(f, sympy.Heaviside, 1), expr_replace(f, sympy.Heaviside, 0)
+    atoms = sorted(f.atoms(sympy.Heaviside), key=str)
+    if atoms:
+        # every assignment of 0 / 1 to every DISTINCT Heaviside term (the formula is affine in each,
+        # so H(0) = 1/2 lies between the two)
+        import itertools
+
+        return tuple(
+            f.xreplace({h: sympy.Integer(v) for h, v in zip(atoms, values)})
+            for values in itertools.product((1, 0), repeat=len(atoms))
+        )
     return (f,)
 
 
